@@ -66,6 +66,8 @@ SHAPES = {
     "clarkBroken": ("", "<x>{urn:q</x>"),
     "xsiClarkBroken": ("", f'<x {XSI} xsi:type="{{urn:q">5</x>'),
     "clark": ("", "<x>{urn:q}n</x>"),
+    "xsiHexBad": ("", f'<x {XSI} {XS} xsi:type="xs:hexBinary">zz</x>'),
+    "xsiIntBad": ("", f'<x {XSI} {XS} xsi:type="xs:int">abc</x>'),
     "leafThenText": ("", "<x><v>1</v></x>stray"),
     "textLeafText": ("", "lead<x><v>1</v></x>mid<zz/>tail"),
 }
@@ -134,7 +136,7 @@ def show(o):
     return f"{type(o[1]).__name__}: {o[1]}"[:240] if o[0] == "exc" else repr(o[1])[:240]
 
 
-RAW = {"str": "abc", "enumStr": "blue", "ints": "5 6", "int": "5", "mixedTokens": "1 a 3", "parentAttrBad": "abc"}
+RAW = {"xsiHexBad": "zz", "xsiIntBad": "abc", "str": "abc", "enumStr": "blue", "ints": "5 6", "int": "5", "mixedTokens": "1 a 3", "parentAttrBad": "abc"}
 
 
 def _x_values(obj):
@@ -151,6 +153,17 @@ def _x_values(obj):
         for v in obj:
             out.extend(_x_values(v))
     return out
+
+
+def _unwrap(v):
+    """the text a generic wrapper (DerivedElement / AnyElement, alone or in a list) holds"""
+    if isinstance(v, list):
+        return [_unwrap(i) for i in v]
+    if hasattr(v, "value") and hasattr(v, "qname") and not hasattr(v, "children"):
+        return _unwrap(v.value)
+    if hasattr(v, "children") and hasattr(v, "text"):
+        return v.text
+    return v
 
 
 def check_unconvertible(ctx, xctx, case, clazz, text):
@@ -179,7 +192,7 @@ def check_unconvertible(ctx, xctx, case, clazz, text):
             if out[0] != "ok" or nwarn < 1:
                 ctx.violation(f"unconvertible {raw!r} for field kind {case['kind']} ({case['pos']}, {h}): expected the value kept with a ConverterWarning, got {show(out)} with {nwarn} warning(s)", info)
                 continue
-            xs = _x_values(out[1])
+            xs = [_unwrap(v) for v in _x_values(out[1])]
             if not xs or any(v != raw and v != [raw] for v in xs):
                 ctx.violation(f"unconvertible {raw!r} for field kind {case['kind']} ({case['pos']}, {h}) is not kept as given: {xs!r}", info)
     return n
